@@ -147,7 +147,16 @@ func (s *sessGen) followP(name string) string {
 	s.provF[name] = f
 	d := &ast.Decl{Kind: ast.DFun, Name: f, Ty: s.ann(ast.NameTy(s.m, name))}
 	s.g.Funs = append(s.g.Funs, d)
-	d.Body = s.prov(ast.SelfNm, s.defs[name], 0)
+	s.g.scoped(func() {
+		d.Body = s.prov(ast.SelfNm, s.defs[name], 0)
+		if d.Body != nil && s.g.Chance(40, "sessexplicitfollower") {
+			// `let offer[w : T] = …`: the follower names its provider; callers hand it theirs
+			w := s.g.fresh("w")
+			d.Explicit = w
+			renameSelf(d.Body, w, s.g)
+			s.g.feat("explicit-provider")
+		}
+	})
 	return f
 }
 
@@ -159,7 +168,7 @@ func (s *sessGen) followC(name string) string {
 	s.consF[name] = f
 	d := &ast.Decl{Kind: ast.DFun, Name: f, Ty: s.one(), Params: []ast.Param{{Name: "x", Ty: s.ann(ast.NameTy(s.m, name))}}}
 	s.g.Funs = append(s.g.Funs, d)
-	d.Body = s.cons("x", s.defs[name], tClose(), 0)
+	s.g.scoped(func() { d.Body = s.cons("x", s.defs[name], tClose(), 0) })
 	return f
 }
 
@@ -243,7 +252,7 @@ func (s *sessGen) consVia(x string, t *ast.Ty, k *ast.Term, budget int) *ast.Ter
 		fn = fmt.Sprintf("help%d_%d", s.k, s.nhelp)
 		d := &ast.Decl{Kind: ast.DFun, Name: fn, Ty: s.one(), Params: []ast.Param{{Name: "x", Ty: s.ann(t)}}}
 		g.Funs = append(g.Funs, d)
-		d.Body = s.cons("x", t, tClose(), budget)
+		g.scoped(func() { d.Body = s.cons("x", t, tClose(), budget) })
 	}
 	u := g.fresh("u")
 	return tNew(u, nil, tCall(fn, x), tWait(u, k))
